@@ -56,6 +56,17 @@ func main() {
 	func() {
 		defer env.Close()
 		switch pos[0] {
+		case "dump":
+			// dump <ID> <file>: write the generated programs (debugging aid)
+			c, ok := checks[pos[1]]
+			if !ok {
+				die("unknown property %s", pos[1])
+			}
+			g := gen.New(env.Seed*1000003+int64(len(c.id)), env.Tier == "thorough")
+			if err := writePrograms(pos[2], c.gen(g, env.Tier == "thorough")); err != nil {
+				die("%v", err)
+			}
+			code = 0
 		case "replay":
 			if len(pos) < 2 {
 				die("replay needs a file")
@@ -243,8 +254,9 @@ func min(a, b int) int {
 // finding is an entry of known_findings.json.
 type finding struct {
 	Status    string `json:"status"` // "open" (recorded finding) or "fixed"
-	Property  string `json:"property"`
-	Deviation string `json:"deviation"` // named deviation of the trace specification
+	Property  string   `json:"property"`
+	Also      []string `json:"also,omitempty"` // other properties whose checks see the same deviation
+	Deviation string   `json:"deviation"`      // named deviation of the trace specification
 	What      string `json:"what"`
 	Witness   any    `json:"witness"`
 	Commit    string `json:"commit,omitempty"`
@@ -269,8 +281,15 @@ func knownDeviation(fs []finding, pid, dev string) *finding {
 		return nil
 	}
 	for i := range fs {
-		if fs[i].Status == "open" && fs[i].Property == pid && fs[i].Deviation == dev {
-			return &fs[i]
+		if fs[i].Status == "open" && fs[i].Deviation == dev {
+			if fs[i].Property == pid {
+				return &fs[i]
+			}
+			for _, a := range fs[i].Also {
+				if a == pid {
+					return &fs[i]
+				}
+			}
 		}
 	}
 	return nil
@@ -333,7 +352,9 @@ func reproduce(env *run.Env, bin string, c *check, br *batchResult, b badEntry, 
 func runCheck(env *run.Env, c *check) int {
 	start := time.Now()
 	thor := env.Tier == "thorough"
-	logf := func(format string, a ...any) { fmt.Fprintf(os.Stderr, "[%s %s seed=%d] "+format+"\n", append([]any{c.id, env.Tier, env.Seed}, a...)...) }
+	logf := func(format string, a ...any) {
+		fmt.Fprintf(os.Stderr, "[%s %s seed=%d] "+format+"\n", append([]any{c.id, env.Tier, env.Seed}, a...)...)
+	}
 
 	bin, err := env.BuildExec("vexec", "", false)
 	if err != nil {
@@ -415,13 +436,15 @@ func runCheck(env *run.Env, c *check) int {
 			if b.L >= 1 && b.L <= len(r.progOf) {
 				badProgs[r.progOf[b.L-1]] = true
 			}
-			mine := b.PID == c.id
-			if !mine {
-				other[b.PID+"/"+b.Kind]++
+			mine := b.PID == c.id || os.Getenv("VERIF_TRIAGE") != "" // triage mode: replay files for every mismatch
+			if f := knownDeviation(findings, b.PID, b.Dev); f != nil {
+				if mine {
+					known[f.Deviation]++
+				}
 				continue
 			}
-			if f := knownDeviation(findings, b.PID, b.Dev); f != nil {
-				known[f.Deviation]++
+			if !mine {
+				other[b.PID+"/"+b.Kind]++
 				continue
 			}
 			key := fmt.Sprintf("%d/%s", r.progOf[b.L-1], b.Kind)
@@ -460,6 +483,9 @@ func runCheck(env *run.Env, c *check) int {
 	}
 	for dev, n := range known {
 		f := knownDeviation(findings, c.id, dev)
+		if f == nil {
+			continue
+		}
 		fmt.Printf("KNOWN-FINDING: property=%s %s: %s (%d events in this run)\n", c.id, dev, f.What, n)
 	}
 	var otherKeys []string
